@@ -84,7 +84,7 @@ class C13(Check):
             chunk = 12
             for i in range(0, len(multisets), chunk):
                 yield {"kind": "decide", "type": t, "ms": multisets[i:i + chunk]}
-        n = 60 if tier == "quick" else 1500
+        n = 60 if tier == "quick" else 6000
         for i in range(n):
             yield {"kind": "e2e", "i": i, "seed": seed}
         # time zones: bounds of date/time/timestamp columns are encoded at write and decoded at read time - in a
@@ -95,7 +95,7 @@ class C13(Check):
                 dom = DOMAINS[t]
                 ms = list(itertools.combinations_with_replacement(range(len(dom) + 1), 2))
                 yield {"kind": "decide", "type": t, "ms": ms, "tz": zw}
-            for i in range(12 if tier == "quick" else 200):
+            for i in range(12 if tier == "quick" else 600):
                 yield {"kind": "e2e", "i": 100000 + zi * 1000 + i, "seed": seed, "tz": zw, "tz_read": zr, "temporal": True}
 
     # ------------------------------------------------------------------
